@@ -2,6 +2,7 @@
 from ..gen import matchspace, spell
 from ..jsonutil import ckey, deep_copy, is_json, jeq
 from ..ref import rpatch, rpath, rptr
+from .c03 import _beyond_limit
 from .common import chunks, shrink_doc, tup
 
 ID = "C20"
@@ -96,6 +97,10 @@ def _check(sub, doc, q, acc, record=True, only_loc=None):
             bad = None
             exp = model(snapshot)
             for form in ("object", "text"):
+                if form == "text" and _beyond_limit(loc):
+                    # a pointer *text* with a digits-only token beyond the index limit is refused when parsed (documented);
+                    # the match's own pointer object carries such a name
+                    continue
                 try:
                     ptr = m.pointer()
                     if form == "object":
